@@ -59,3 +59,17 @@ Definition probe_id_clash (c : cfg) (s : sent) (ttl rnd : Z) : bool :=
             else s_id s =? (c_base_id c + ttl) mod 65536
   | VSack => s_seq s =? (c_init_seq c + ttl) mod 4294967296
   end.
+
+(** the per-probe identifier as it appears on the wire equals the scheme's value for this TTL
+    (the schemes are injective in the TTL: Proofs/BuildProofs.v) *)
+Definition w16 (p : bytes) (off : nat) : Z := be16 (nth off p 0) (nth (S off) p 0).
+Definition w32 (p : bytes) (off : nat) : Z := be32 (nth off p 0) (nth (S off) p 0) (nth (S (S off)) p 0) (nth (S (S (S off))) p 0).
+Definition wire_id_ok (c : cfg) (ttl rnd : Z) (p : bytes) : bool :=
+  match c_variant c with
+  | VIcmp => if is_v6 c then (w16 p 44 =? c_echo_id c) && (w16 p 46 =? ttl)
+             else (w16 p 24 =? c_echo_id c) && (w16 p 26 =? ttl)
+  | VUdp => if is_v6 c then w16 p 4 =? udp6_id ttl else w16 p 4 =? udp4_id ttl
+  | VTcp => if c_paris c then (w16 p 4 =? 41821) && (w32 p 24 =? rnd)
+            else (w16 p 4 =? (c_base_id c + ttl) mod 65536) && (w32 p 24 =? c_seq c)
+  | VSack => w32 p 24 =? (c_init_seq c + ttl) mod 4294967296
+  end.
